@@ -712,6 +712,22 @@ def second_call_cases():
     return out
 
 
+def same_line_cases():
+    """Two helper lambdas written on ONE source line (a tuple assignment): source recovery tells them apart by their
+    parameter names only, so anything that identifies a helper by file and line confuses them."""
+    out = []
+    pairs = [("(lambda p: p + 1)", "(lambda d: d * 3)"), ("(lambda p, k=2: p - k)", "(lambda d: d * 3 + 1)")]
+    lams = ["lambda e: ha(e.a) + hb(e.b)", "lambda e: hb(e.a) - ha(e.b)", "lambda e: hb(ha(e.a))", "lambda e: hb(e.a)",
+            "lambda e: sum(e.jets.Select(lambda j: hb(j.pt) - ha(e.a)))"]
+    for (a, b) in pairs:
+        for scope, depth in (("g", 1), ("l1", 1), ("l1", 2)):
+            for lam in lams:
+                vs = [Var("ha", scope, "ha, hb = %s, %s" % (a, b), "ha = 'REBOUND'", byname=True, lam_helper=True),
+                      Var("hb", scope, "hb = hb", "hb = 'REBOUND'", byname=True, lam_helper=True)]
+                out.append(Case(lam, vs, depth, {"same-line-helpers", "scope:" + scope}, group="sameline"))
+    return out
+
+
 # ---------------------------------------------------------------- higher-order helpers
 # helpers that take lambdas, return lambdas and hand lambdas on to further helpers (depth 2-3); the names of their
 # parameters and inner binders (x, a, v, w, f) are also used for the parameters of the passed lambda and of lambdas
@@ -846,7 +862,7 @@ def inlinable_left_by_name(case: Case, tree) -> list:
 
 
 def run(ctx):
-    cs = corpus() + starred_and_defaults(ctx) + stays_by_name(ctx) + resubstitution(ctx) + unpacking_targets(ctx) + no_lambda(ctx) + source_shapes(ctx) + closure_vs_global(ctx) + second_call_cases() + higher_order(ctx) + structured(ctx)
+    cs = corpus() + starred_and_defaults(ctx) + stays_by_name(ctx) + resubstitution(ctx) + unpacking_targets(ctx) + no_lambda(ctx) + source_shapes(ctx) + closure_vs_global(ctx) + second_call_cases() + same_line_cases() + higher_order(ctx) + structured(ctx)
     en = enumerated(ctx)
     cap = ctx.budget(3000, 60000)
     if len(en) > cap:
